@@ -73,9 +73,11 @@ func replayNode(like *world.Node, log []storage.Message) (*world.Node, *world.Me
 }
 
 func checkC08(c *Ctx) {
-	c.Rule = "logs recorded from reference worlds (honest key generation + signing with slow signers; a key generation cancelled by an error report; two rounds interleaved on one board; logs salted with rejected, duplicated and junk messages) are replayed on fresh nodes carrying a recorded node's identity: (a) the live node vs replays under 'one message per poll', 'everything in one poll' and 5 random poll splits; (b) the same after the real ResetFSMState path; (c) every pair of live nodes after every prefix, outside the per-recipient deal phase; (d) each round replayed alone vs inside the interleaved log. Compared: public time-free projection of the round, signature store, final offset. distinct = distinct (log kind, comparison kind, split/prefix) comparisons"
+	c.Rule = "logs recorded from reference worlds (honest key generation + signing with slow signers; a key generation cancelled by an error report; two rounds interleaved on one board; logs salted with rejected, duplicated and junk messages) are replayed on fresh nodes carrying a recorded node's identity: (a) the live node vs replays under 'one message per poll', 'everything in one poll' and 5 random poll splits; (b) the same after the real ResetFSMState path; (c) every pair of live nodes after every prefix, outside the per-recipient deal phase; (d) each round replayed alone vs inside the interleaved log. Compared: public time-free projection of the round, signature store, final offset. Every world ends with a proposal that is rejected after the round's action ran (baked range outside the list) followed by an ordinary one, so that nodes which lived through a rejected message are compared with restarted ones. Worlds with name twins (alice/Alice); one replay per world through the repository's own Poll() loop; one replay per node of the log without other participants' private messages. distinct = distinct (log kind, comparison kind, split/prefix) comparisons"
 	c.Assumptions = []string{"timestamps within the confirmation deadlines (property's own proviso)", "MemState", "the replaying node never answers operations: a round's state must not depend on them"}
-	kinds := []string{"honest+signing", "cancelled", "two-rounds", "honest+junk"}
+	// "name-twins": participants whose names differ in letter case / surrounding blanks only (the proposal
+	// validation accepts them as different users; private messages are addressed by name)
+	kinds := []string{"honest+signing", "cancelled", "two-rounds", "honest+junk", "name-twins"}
 	reps := c.Pick(8, 80)
 	type job struct {
 		kind string
@@ -93,7 +95,12 @@ func checkC08(c *Ctx) {
 func runC08(c *Ctx, kind string, seed uint64) {
 	n, t := 3, 2
 	r := sched.Derive(seed, 8)
-	w, err := world.NewWorld(world.Options{N: n, T: t, Seed: seed, OddNames: seed%3 == 1})
+	opts := world.Options{N: n, T: t, Seed: seed, OddNames: seed%3 == 1}
+	if kind == "name-twins" {
+		opts.OddNames = false
+		opts.Names = [][]string{{"alice", "Alice", "bob"}, {"carol", "carol ", "CAROL"}, {"Node_1", "node_1", "node_10"}}[seed%3]
+	}
+	w, err := world.NewWorld(opts)
 	if err != nil {
 		c.Inconclusive("world: %v", err)
 		return
@@ -370,6 +377,42 @@ func judgeReplays(c *Ctx, kind string, seed uint64, w *world.World, rounds []str
 					if d := diffViews(ref, viewOf(rn, rounds, oracle.ProjOpts{}), true); d != "" {
 						c.Violate("C08/state-after-reset-and-replay-differs", fmt.Sprintf("%s: %s", live.Name, d), wit("reset"))
 					}
+				}
+			}
+		}
+		// (a') the repository's own Poll() loop (its recipient filter, its order of calls) over the recorded log
+		if (int(seed)+live.Idx)%3 == 0 {
+			if rn, _, err := replayNode(live, log); err == nil {
+				reached, perr := rn.RealPollToEnd(len(log), 60*time.Second)
+				c.Eval(1)
+				c.Distinct(fmt.Sprintf("%s|real-poll-loop|%s", kind, live.Name))
+				if !reached {
+					c.Inconclusive("real Poll() over the recorded log did not reach the end: %v", perr)
+				} else if d := diffViews(ref, viewOf(rn, rounds, oracle.ProjOpts{}), true); d != "" {
+					c.Violate("C08/replay-differs-from-live-node", fmt.Sprintf("%s live vs replay (the node's real Poll loop): %s", live.Name, d), wit("replay:real-poll-loop"))
+				}
+				c.Add("replays_through_the_real_poll_loop", 1)
+			}
+		}
+		// (d2) only what was addressed to this node (broadcasts and private messages carrying exactly its name)
+		{
+			var mine []storage.Message
+			for _, m := range log {
+				if m.RecipientAddr == "" || m.RecipientAddr == live.Name {
+					mine = append(mine, m)
+				}
+			}
+			if rn, _, err := replayNode(live, mine); err == nil {
+				for int(rn.Offset()) < len(mine) {
+					if _, err := rn.PollStep(0); err != nil {
+						break
+					}
+				}
+				c.Eval(1)
+				c.Distinct(fmt.Sprintf("%s|addressed-only|%s", kind, live.Name))
+				c.Add("private_messages_of_others_removed", len(log)-len(mine))
+				if d := diffViews(ref, viewOf(rn, rounds, oracle.ProjOpts{}), false); d != "" {
+					c.Violate("C08/messages-addressed-to-others-changed-a-round", fmt.Sprintf("%s: the full log vs the log without the private messages of other participants: %s", live.Name, d), wit("addressed-only"))
 				}
 			}
 		}
